@@ -22,7 +22,7 @@ A_OF = {1: [1, 2, 3], 8: [16, 17, 18], 92: [235, 238, 234], 26: [54, 56, 57], 6:
 
 def plan(tier):
     q = tier == 'quick'
-    return [('cards', 300 if q else 5000, {}), ('table', 1, {})]
+    return [('cards', 300 if q else 5000, {}), ('table', 1, {}), ('rescale', 300 if q else 5000, {})]
 
 
 def search_plan(tier, disagreements):
@@ -54,8 +54,37 @@ def gen_card(rng, zpick):
     return toks, neg
 
 
+def rescale_case(seed, rng, ctx):
+    """rescale_fractions (the code sums with math.fsum) vs the Lean model (plain left-to-right sum): agreement to
+    1e-12 relative; the strings written are '%.15e' of the code's values"""
+    import struct
+    from t4_geom_convert.Kernel.Composition.ConstructCompositionT4 import rescale_fractions
+    n = rng.randint(1, 9)
+    frs = [rng.choice(FRACS_POS) for _ in range(n)]
+    rho = rng.choice([0.05, 0.0602, 1.0, 8.5e-2, 1.2345e-3, 4.0])
+    code = [float(c) for _, c in rescale_fractions([('X%d' % i, f) for i, f in enumerate(frs)], rho)]
+    from MIP.mip.utils import to_float
+    resp = ctx['drv'].ask('rescale %r %s' % (rho, ' '.join(repr(to_float(f)) for f in frs)))
+    fails = []
+    key = h((tuple(frs), rho))
+    if not resp.startswith('ok '):
+        fails.append(fail('disagreement', 'driver: ' + resp, {'stream': 'rescale'}, {'fractions': frs, 'rho': rho}))
+    else:
+        model = [struct.unpack('<d', struct.pack('<Q', int(b)))[0] for b in resp.split()[1:]]
+        if len(model) != len(code) or any(abs(a - b) > 1e-12 * max(abs(a), abs(b), 1e-300) for a, b in zip(model, code)):
+            fails.append(fail('disagreement', 'rescale_fractions(%r, %r): code %r / model %r' % (frs, rho, code, model),
+                              {'stream': 'rescale'}, {'fractions': frs, 'rho': rho}))
+        if abs(sum(code) - rho) > 1e-12 * rho:
+            fails.append(fail('violation', 'concentrations %r do not sum to the atom density %r' % (code, rho),
+                              {'stream': 'rescale', 'class': 'sum'}, {'fractions': frs, 'rho': rho}))
+    return dict(hashes=[key], nontrivial_hashes=[key] if n > 1 else [], dist={'rescale:n-%d' % n: 1},
+                sample={'fractions': frs, 'rho': rho, 'code': code[:4]}, failures=fails)
+
+
 def run_case(stream, seed, ctx, params):
     rng = random.Random(seed)
+    if stream == 'rescale':
+        return rescale_case(seed, rng, ctx)
     drv = ctx['drv']
     if stream == 'table':
         from t4_geom_convert.Kernel.Composition.EIsotopeNameElementT4 import EIsotopeNameElement
